@@ -294,6 +294,7 @@ func (cr *ConRun) runBpm() {
 	cr.stat("steps", int(cr.Res.Steps))
 	cr.stat("decisions", int(cr.Res.Decisions))
 	cr.stat("preemptions", int(cr.Res.Preemptions))
+	cr.faultStats()
 	cr.stat("outcome:"+cr.Res.Outcome, 1)
 	cr.stat(fmt.Sprintf("bpm_frames:%d", frames), 1)
 	switch cr.Res.Outcome {
